@@ -473,6 +473,8 @@ func Run(tier, replay string) {
 
 	negatives(rep)
 	lap("parse_rows")
+	isoRows = isolation(rep, judged)
+	lap("isolation")
 
 	// (T) everything recorded is judged by MetadataTrace
 	judge(rep, irRows, vectors, judged)
@@ -508,6 +510,73 @@ func histWords(v irVector) string {
 		return ""
 	}
 	return fmt.Sprintf(", printed, unnumbered definition inserted after position %d, printed again", *v.Ins)
+}
+
+// isoRow is one row of md_iso_rec.ndjson (see spec/MetadataTrace.tla).
+type isoRow struct {
+	A            string   `json:"a"`
+	B            string   `json:"b"`
+	SharedSame   []string `json:"shared_same"`
+	SharedDiff   []string `json:"shared_diff"`
+	BChanged     bool     `json:"b_changed"`
+	FreshDiffers bool     `json:"fresh_differs"`
+	Hoisted      int      `json:"hoisted"`
+	changed      string
+	fresh        string
+	textA, textB string
+}
+
+func sharedSig(r isoRow) string {
+	set := map[string]bool{}
+	for _, t := range append(append([]string{}, r.SharedSame...), r.SharedDiff...) {
+		set[t] = true
+	}
+	var ts []string
+	for t := range set {
+		ts = append(ts, t)
+	}
+	sort.Strings(ts)
+	return strings.Join(ts, ",")
+}
+
+// isolation pairs every judged text with its successor: two parses of A, one of B, in one process.
+func isolation(rep *mbt.Report, rows []*parseRow) []isoRow {
+	if len(rows) < 2 {
+		return []isoRow{}
+	}
+	jobs := make([]job, len(rows))
+	for i, r := range rows {
+		jobs[i] = job{Kind: "iso", Text: r.text, Text2: rows[(i+1)%len(rows)].text, Ins: -1}
+	}
+	out := []isoRow{}
+	hoisted := 0
+	for i, jr := range runJobs(jobs) {
+		a, b := rows[i], rows[(i+1)%len(rows)]
+		rep.Count("iso:"+a.name+"|"+b.name, true)
+		if jr.Crashed != "" {
+			if jr.Phase != "skipped" {
+				rep.Fail(mbt.Failure{Signature: "C17|isolation|crash|" + a.Src + a.kindTag(), What: fmt.Sprintf("%s + %s: the process dies in phase %s: %s", a.name, b.name, jr.Phase, jr.Crashed),
+					Case: map[string]interface{}{"kind": "iso", "a": a.name, "b": b.name, "text": a.text, "text2": b.text}})
+			}
+			continue
+		}
+		if jr.IsoSkipped != "" {
+			continue
+		}
+		hoisted += jr.Hoisted
+		row := isoRow{A: a.name, B: b.name, SharedSame: jr.SharedSame, SharedDiff: jr.SharedDiff, BChanged: jr.BChanged != "", FreshDiffers: jr.FreshDiffers != "",
+			Hoisted: jr.Hoisted, changed: jr.BChanged, fresh: jr.FreshDiffers, textA: a.text, textB: b.text}
+		if row.SharedSame == nil {
+			row.SharedSame = []string{}
+		}
+		if row.SharedDiff == nil {
+			row.SharedDiff = []string{}
+		}
+		out = append(out, row)
+	}
+	rep.Extra["isolation_pairs"] = len(out)
+	rep.Extra["isolation_inline_nodes_hoisted"] = hoisted
+	return out
 }
 
 func patName(p map[string]interface{}) string {
@@ -726,18 +795,21 @@ func firstDiff(a, b string) string {
 var reBadRow = regexp.MustCompile(`<<"BADROW", "([^"]+)", "([^"]+)", (\d+)>>`)
 
 // judge runs MetadataTrace over the recorded rows and classifies the BADROW list.
+// isoRows: the isolation rows of this run (set before judge is called).
+var isoRows []isoRow
+
 func judge(rep *mbt.Report, irRows []irRow, vectors []irVector, prs []*parseRow) {
 	t := mbt.MustTLC(mbt.TLCOpts{Spec: "MetadataTrace", Cfg: "MetadataTrace.cfg", Workers: 8, Timeout: 20 * time.Minute,
-		Data: map[string][]byte{"md_ir_rec.ndjson": mbt.NDJSONBytes(irRows), "md_parse_rec.ndjson": mbt.NDJSONBytes(prs)}})
+		Data: map[string][]byte{"md_ir_rec.ndjson": mbt.NDJSONBytes(irRows), "md_parse_rec.ndjson": mbt.NDJSONBytes(prs), "md_iso_rec.ndjson": mbt.NDJSONBytes(isoRows)}})
 	defer t.Cleanup()
 	if len(t.Violated) > 0 {
 		mbt.Infra("MetadataTrace: unexpected violation %v", t.Violated)
 	}
-	if t.Distinct != int64(len(irRows)+len(prs))+1 {
-		mbt.Infra("MetadataTrace consumed %d rows of %d", t.Distinct-1, len(irRows)+len(prs))
+	if t.Distinct != int64(len(irRows)+len(prs)+len(isoRows))+1 {
+		mbt.Infra("MetadataTrace consumed %d rows of %d", t.Distinct-1, len(irRows)+len(prs)+len(isoRows))
 	}
 	rep.AddTLC(t)
-	rep.TracesValidated += len(irRows) + len(prs)
+	rep.TracesValidated += len(irRows) + len(prs) + len(isoRows)
 	for _, m := range reBadRow.FindAllStringSubmatch(t.Output, -1) {
 		file, law := m[1], m[2]
 		ri, _ := strconv.Atoi(m[3])
@@ -753,6 +825,23 @@ func judge(rep *mbt.Report, irRows []irRow, vectors []irVector, prs []*parseRow)
 			rep.Fail(mbt.Failure{Signature: "C17|ir|" + law + "|" + idsClass(row.IDs),
 				What: fmt.Sprintf("definition list %v with operands %v: law %s fails; the code printed %+v, the specification requires %+v", row.IDs, row.Refs, law, row.Got, want),
 				Case: map[string]interface{}{"kind": "ir", "ids": row.IDs, "refs": row.Refs}})
+			continue
+		}
+		if file == "iso" {
+			row := isoRows[ri-1]
+			what := ""
+			switch {
+			case strings.HasPrefix(law, "no-node-shared-by-two-parses"):
+				what = fmt.Sprintf("two separate parses of %s share node objects of type %v", row.A, row.SharedSame)
+			case strings.HasPrefix(law, "no-node-shared-by-two-modules"):
+				what = fmt.Sprintf("the modules parsed from %s and from %s share node objects of type %v", row.A, row.B, row.SharedDiff)
+			case strings.HasPrefix(law, "untouched"):
+				what = fmt.Sprintf("after the %d inline nodes of %s were hoisted into its MetadataDefs and it was printed, the untouched module %s prints differently: %s", row.Hoisted, row.A, row.B, row.changed)
+			default:
+				what = fmt.Sprintf("after module %s was changed and printed, a fresh parse of the text of %s prints differently from its first print: %s", row.A, row.B, row.fresh)
+			}
+			rep.Fail(mbt.Failure{Signature: "C17|isolation|" + law + "|" + sharedSig(row), What: what,
+				Case: map[string]interface{}{"kind": "iso", "a": row.A, "b": row.B, "text": row.textA, "text2": row.textB}})
 			continue
 		}
 		r := prs[ri-1]
@@ -850,6 +939,12 @@ func runReplay(rep *mbt.Report, path string) {
 			}
 			rows[0].Ins, rows[0].Refs2, rows[0].Got2 = nil, nil, nil // judged as a plain row on replay
 			irRows = append(irRows, rows[0])
+		case "iso":
+			ta, _ := c["text"].(string)
+			tb, _ := c["text2"].(string)
+			na, _ := c["a"].(string)
+			nb, _ := c["b"].(string)
+			isoRows = append(isoRows, isolation(rep, []*parseRow{{Src: "text", name: na, text: ta}, {Src: "text", name: nb, text: tb}})...)
 		case "negative":
 			negatives(rep)
 		case "parse":
@@ -868,7 +963,7 @@ func runReplay(rep *mbt.Report, path string) {
 		}
 	}
 	prs = processParseRows(rep, prs, 1, 0)
-	if len(irRows)+len(prs) > 0 {
+	if len(irRows)+len(prs)+len(isoRows) > 0 {
 		judge(rep, irRows, nil, prs)
 	}
 }
